@@ -195,3 +195,5 @@ func clip(s string, n int) string {
 	}
 	return s
 }
+
+func jsonUnmarshal(b []byte, v interface{}) error { return json.Unmarshal(b, v) }
